@@ -6,6 +6,7 @@ package main
 
 import (
 	"bufio"
+	"bytes"
 	"context"
 	"encoding/hex"
 	"fmt"
@@ -25,6 +26,7 @@ import (
 	"github.com/versity/versitygw/backend"
 	"github.com/versity/versitygw/s3api/utils"
 	"github.com/versity/versitygw/s3err"
+	"verif/harness/gw"
 	"verif/harness/lib"
 )
 
@@ -243,6 +245,12 @@ func c20DirectRun(c c20DCase, v c20Variants) (impl string, line string) {
 			backend.BackendUnsupported{}.SelectObjectContent(context.Background(), in)(bufio.NewWriter(io.Discard))
 			return "nopanic"
 		})
+	case "unsignedread":
+		// the whole reader on a finite stream: it must come to an end (value or error) — a reader that
+		// neither returns nor consumes is the wedge of the request; the first size line is compared
+		// with the model: where the model refuses it, Read must return errMalformedEncoding at once
+		line = "robust chunksizeof " + a[0]
+		impl = c20ReadUnsigned([]byte(unhex(a[0])))
 	case "bigdata":
 		// the model gets the path as the handler sees it (ctx.Path())
 		var seen string
@@ -255,6 +263,35 @@ func c20DirectRun(c c20DCase, v c20Variants) (impl string, line string) {
 		line = "robust bigdata " + hexArg(seen)
 	}
 	return
+}
+
+var c20ReaderSpun bool // a reader goroutine that spins cannot be stopped: no further reader cases after the first
+
+func c20ReadUnsigned(stream []byte) string {
+	if c20ReaderSpun {
+		return "skipped"
+	}
+	done := make(chan string, 1)
+	go func() {
+		done <- c20Recover(func() string {
+			rd, err := utils.NewUnsignedChunkReader(bytes.NewReader(stream), "x-amz-checksum-crc32", false)
+			if err != nil {
+				return "err-new:" + err.Error()
+			}
+			data, err := io.ReadAll(rd)
+			if err != nil {
+				return fmt.Sprintf("err %d %s", len(data), err.Error())
+			}
+			return fmt.Sprintf("ok %d", len(data))
+		})
+	}()
+	select {
+	case r := <-done:
+		return r
+	case <-time.After(3 * time.Second):
+		c20ReaderSpun = true
+		return "spin"
+	}
 }
 
 func c20SortPairs(m map[string]string) string {
@@ -284,6 +321,22 @@ func c20CanonModel(site, model string) string {
 		}
 	}
 	return model
+}
+
+// c20ReaderAgrees: what the model of the first size line says against what the whole reader did.
+func c20ReaderAgrees(model, impl string) bool {
+	if impl == "spin" || impl == "panic" {
+		return false
+	}
+	if impl == "skipped" {
+		return true
+	}
+	if model == "malformed" {
+		return impl == "err 0 malformed chunk encoding"
+	}
+	// an accepted first line: the reader went on; it must not report the first line as malformed
+	// unless a later line is (not modelled here): only termination is judged
+	return true
 }
 
 // ---------------------------------------------------------------- generators
@@ -402,8 +455,28 @@ func c20GenGrants(r *lib.Rand) string {
 	return strings.Join(g, ",")
 }
 
+// c20GenUnsignedStream: a valid STREAMING-UNSIGNED-PAYLOAD-TRAILER body, cut at a framing boundary or
+// with a mutated line
+func c20GenUnsignedStream(r *lib.Rand) string {
+	body := c20Data(r.Intn(12))
+	var sizes []int
+	for i := r.Intn(3); i > 0; i-- {
+		sizes = append(sizes, 1+r.Intn(6))
+	}
+	w := gw.EncodeUnsignedChunks(body, sizes, "crc32")
+	switch r.Intn(5) {
+	case 0:
+		return string(w)
+	case 1, 2:
+		return string(c20Cut(w, fmt.Sprintf("%s:%d", r.Pick([]string{"crlf", "crlf", "mid", "lf"}), r.Intn(8))))
+	case 3:
+		return c20Mutated(r, string(w), "0123456789abcdef\r\n ;x")
+	}
+	return r.Pick([]string{"", "\r\n", "\n", "\r\n\r\n", "0", "0\r\n", "0\r\n\r\n", "5\r\nhello", "5\r\nhello\r\n", "5\r\nhello\r\n\r\n", "5\r\nhello\r\n\n\n", " \r\n", "5\r\nhello\r\n0\r\n", "5\r\nhello\r\n0\r\nx-amz-checksum-crc32:AAAA"})
+}
+
 func c20DirectGen(r *lib.Rand) c20DCase {
-	switch k := r.Intn(22); {
+	switch k := r.Intn(24); {
 	case k < 3:
 		s := c20Plain(r.Pick(c20Pools["copysrc"]))
 		cl := "copysource:pool"
@@ -464,6 +537,8 @@ func c20DirectGen(r *lib.Rand) c20DCase {
 		return c20DCase{"trimspace", []string{hexArg(b.String())}, "trimspace"}
 	case k < 21:
 		return c20DCase{"acp", []string{c20GenGrants(r), r.Pick([]string{"nil", "noid", "-", hexArg("x")})}, "acp"}
+	case k < 22:
+		return c20DCase{"unsignedread", []string{hexArg(c20GenUnsignedStream(r))}, "unsignedread"}
 	default:
 		p := r.Pick(c20PathPool)
 		if r.Chance(40) {
@@ -542,6 +617,9 @@ func c20Direct(a lib.Args, res *lib.Result) error {
 		for _, s := range []string{"nil", "noenabled", "true", "false"} {
 			cases = append(cases, c20DCase{"select", []string{s}, "corpus"})
 		}
+		for _, s := range []string{"", "5\r\nhello\r\n", "5\r\nhello\r\n\r\n\r\n", "\r\n", "5\r\nhello"} {
+			cases = append(cases, c20DCase{"unsignedread", []string{hexArg(s)}, "corpus"})
+		}
 		r := lib.NewRandStream(a.Seed, 2100)
 		for i := 0; i < n; i++ {
 			cases = append(cases, c20DirectGen(r))
@@ -559,6 +637,18 @@ func c20Direct(a lib.Args, res *lib.Result) error {
 	}
 	for i, c := range cases {
 		model := c20CanonModel(c.Site, out[i])
+		if c.Site == "unsignedread" {
+			if !c20ReaderAgrees(model, impls[i]) {
+				kind, sig, what := "correspondence", "direct:unsignedread", "the unsigned chunk reader does not refuse a stream whose first size line the model refuses"
+				if impls[i] == "spin" {
+					kind, sig, what = "property", "wedge:direct:UnsignedChunkReader.Read", "the unsigned chunk reader neither returns nor consumes input on this finite stream (3 s): the request would never be answered"
+				} else if impls[i] == "panic" {
+					kind, sig, what = "property", "crash:direct:unsignedread", "the unsigned chunk reader panics on this stream"
+				}
+				res.Fail(lib.Failure{Kind: kind, Signature: sig, What: what, Input: map[string]interface{}{"site": c.Site, "args": c.Args, "class": c.Class}, Impl: impls[i], Model: model})
+			}
+			continue
+		}
 		if i%50000 == 0 {
 			res.Sample(map[string]interface{}{"direct": c.Site, "args": c.Args, "impl": impls[i], "model": model})
 		}
